@@ -75,4 +75,65 @@ theorem sqrt_rne_bounds (root M K : Nat) (hK : 0 < K) (h1 : root * root ≤ M) (
       have b := sq (2 * P - K) (2 * root + 1) (by omega)
       omega
 
+/-! ### `UnpackedFloat.sqrt` -/
+
+/-- the exponent `sqrtCore` works at. -/
+def sqTe (spec : Format) (m : Nat) (e : Int) : Int :=
+  min (e.ediv 2) (spec.targetExponent ((totalExponent m e + 1).ediv 2))
+/-- the shifted mantissa: `m · 2^e = sqM · 2^(2 · sqTe)`. -/
+def sqM (spec : Format) (m : Nat) (e : Int) : Nat := m <<< (e - 2 * sqTe spec m e).toNat
+
+theorem sqrt_fin (spec : Format) (m : Nat) (e : Int) (hm : 0 < m) :
+    UnpackedFloat.sqrt spec (.finite .positive m e hm) =
+      roundWithAccuracy spec .positive (Nat.sqrt (sqM spec m e)) (sqTe spec m e)
+        (if sqM spec m e - Nat.sqrt (sqM spec m e) * Nat.sqrt (sqM spec m e) = 0 then .exact
+          else .inexact (if sqM spec m e - Nat.sqrt (sqM spec m e) * Nat.sqrt (sqM spec m e) ≤ Nat.sqrt (sqM spec m e)
+            then .lt else .gt)) := rfl
+
+theorem sqTe_le (spec : Format) (m : Nat) (e : Int) : 2 * sqTe spec m e ≤ e := by
+  unfold sqTe
+  have : e.ediv 2 = e / 2 := rfl
+  rw [this]; omega
+
+theorem sqM_eq (spec : Format) (m : Nat) (e : Int) : sqM spec m e = m * 2 ^ (e - 2 * sqTe spec m e).toNat := by
+  unfold sqM; rw [Nat.shiftLeft_eq]
+
+/-- **`sqrtCore` never asks `roundWithAccuracy` to add bits**: its exponent is not above the target exponent of the
+integer root (which has a full mantissa unless the exponent is clamped at `minExponent`). -/
+theorem sqTe_le_tgt (spec : Format) (m : Nat) (e : Int) (hm : 0 < m) :
+    sqTe spec m e ≤ tgt spec (Nat.sqrt (sqM spec m e)) (sqTe spec m e) := by
+  by_cases hmin : sqTe spec m e ≤ spec.minExponent
+  · exact le_trans hmin (tgt_ge_min _ _ _)
+  · have hp := mantissaBits_pos spec
+    -- the root has a full mantissa
+    have hs := sqTe_le spec m e
+    have hT : sqTe spec m e ≤ (totalExponent m e + 1) / 2 - spec.mantissaBits := by
+      have h1 : sqTe spec m e ≤ spec.targetExponent ((totalExponent m e + 1).ediv 2) := by
+        unfold sqTe; omega
+      unfold Format.targetExponent at h1
+      have : (totalExponent m e + 1).ediv 2 = (totalExponent m e + 1) / 2 := rfl
+      rw [this] at h1
+      omega
+    unfold totalExponent at hT
+    have hM : 2 ^ (2 * spec.mantissaBits - 2) ≤ sqM spec m e := by
+      rw [sqM_eq]
+      calc 2 ^ (2 * spec.mantissaBits - 2) ≤ 2 ^ (m.log2 + (e - 2 * sqTe spec m e).toNat) :=
+            Nat.pow_le_pow_right (by decide) (by omega)
+        _ = 2 ^ m.log2 * 2 ^ (e - 2 * sqTe spec m e).toNat := Nat.pow_add ..
+        _ ≤ m * 2 ^ (e - 2 * sqTe spec m e).toNat := Nat.mul_le_mul_right _ (Nat.log2_self_le (by omega))
+    have hroot : 2 ^ (spec.mantissaBits - 1) ≤ Nat.sqrt (sqM spec m e) := by
+      by_contra hc
+      have h1 : Nat.sqrt (sqM spec m e) + 1 ≤ 2 ^ (spec.mantissaBits - 1) := by omega
+      have h2 := Nat.mul_self_le_mul_self h1
+      have h3 := Nat.lt_succ_sqrt (sqM spec m e)
+      have h4 : 2 ^ (spec.mantissaBits - 1) * 2 ^ (spec.mantissaBits - 1) = 2 ^ (2 * spec.mantissaBits - 2) := by
+        rw [← Nat.pow_add]; congr 1; omega
+      rw [h4] at h2
+      simp only [Nat.succ_eq_add_one] at h3
+      omega
+    have hlog : spec.mantissaBits - 1 ≤ (Nat.sqrt (sqM spec m e)).log2 :=
+      (Nat.le_log2 (by have := Nat.two_pow_pos (spec.mantissaBits - 1); omega)).mpr hroot
+    unfold tgt Format.targetExponent totalExponent
+    omega
+
 end Rosu.FErr
